@@ -150,9 +150,14 @@ class C05(object):
                     mod.EquationSolver.MaxIterations = 3000
                     try:
                         mod.main()
-                    except Exception as e:
+                    except NameError as e:
+                        # a name that is not defined anywhere: the system is not closed
                         rec.violate('model_with_embedded_names_fails', {'err': repr(e)[:400]},
                                     mechanism='dangling_or_unsolvable')
+                    except Exception as e:
+                        # an embedded ratio may divide by a variable that is zero, the solver may not converge:
+                        # that says nothing about closure; the emitted text is still judged below
+                        rec.count('solve_failed_for_numerical_reasons')
                 else:
                     mod._GenerateFullSectorCodes()
                     mod._GenerateEquations()
